@@ -428,3 +428,8 @@ def run(ctx):
     r13_9(ctx)
     from ..initflags import group_rule
     group_rule(ctx, "R13.10", "placement", "a component's location and the workplace's contents are reset separately and disagree afterwards")
+    # after a reload both sides of a placement are rebuilt from saved IDs: the component's location and the workplace's contents go
+    # through the same unconditional re-link (C16's codec table), otherwise a resumed run starts with a one-sided placement
+    from .C16 import r16_2
+    from ..jsontab import JsonTables
+    r16_2(ctx, JsonTables(ctx))
